@@ -240,6 +240,7 @@ Step(S, e) ==
         LET B == S.bat[e.b]
             root == IF S.wait # <<>> THEN Last(S.wait) ELSE 0
             yo == YieldOnly(P)
+            outer == IF S.wait # <<>> THEN S.wait[1] ELSE 0      \* in a yield-only program nothing waits inside a task: judge the whole computation
             pend == {b \in DOMAIN S.bat : b # e.b /\ S.bat[b].st = "pending" /\
                                          \E i \in 1..Len(S.bat[b].items) : AwaitedItem(S, S.bat[b].items[i])}
             prioOk(b) ==
@@ -248,7 +249,7 @@ Step(S, e) ==
               IN IF pb # pe THEN LexLE3(<<pb[1], pb[2], 0>>, <<pe[1], pe[2], 0>>)
                  ELSE (b \in DOMAIN S.prio /\ e.b \in DOMAIN S.prio /\ Len(S.prio[b]) = 3 /\ Len(S.prio[e.b]) = 3)
                         => S.prio[b][3] <= S.prio[e.b][3]
-            reach == IF root # 0 THEN Reach(S, root) \cap Tasks(S) ELSE {}
+            reach == IF root # 0 THEN Reach(S, IF yo THEN outer ELSE root) \cap Tasks(S) ELSE {}
             blk == Blocked(S)
             maxOk == \A t \in reach : FutDone(S, t) \/ (S.ts[t].seg > 0 /\ S.ts[t].st = "waiting" /\ t \in blk)
             S1 == [S EXCEPT !.bat[e.b].nbefore = @ + 1, !.bat[e.b].sched = TRUE, !.nflush = @ + 1, !.prio = EmptyFn]
